@@ -3,7 +3,8 @@
 Case format
 -----------
 {"op": "replay", "buffer": null | n, "window": null | w,
- "observers": [{"err": bool, "react": [[n, [action, ...]], ...]}, ...],      # as in C20, plus re-entrant emission
+ "observers": [{"err": bool, "react": [[n, [action, ...]], ...],             # as in C20, plus re-entrant emission
+                "sched": "own" | "immediate" | "other" | "other_ahead"}, ...],  # optional: scheduler= argument of this observer's subscribe()
                                                                              # actions ["next", v] | ["error", name] | ["completed"]
  "calls": [[t, call], ...]}     call = ["sub", i] | ["unsub", i] | ["next", v] | ["error", name] | ["completed"] | ["dispose"]
 
@@ -478,6 +479,14 @@ def bucket(case, out):
     expected, cut, stats, problems = analyse(case, out)
     for s in sorted(stats):
         yield s
+    subs = [ev[1] for ev in out["order"] if ev[0] == "sub"]
+    foreign = [j for j in subs if case["observers"][j].get("sched") not in (None, "own")]
+    for kind in sorted({case["observers"][j].get("sched") for j in subs if case["observers"][j].get("sched")}):
+        yield "subscribe(scheduler=" + kind + ")"
+    if foreign and case["window"] is not None:
+        yield "foreign-scheduler-subscription-with-window"
+        if any(j not in foreign for j in subs[subs.index(foreign[0]) + 1:]):
+            yield "plain-subscription-after-foreign-scheduler-subscription"
     if out["crashed"]:
         yield "crashed(handlerless error in a run action)"
     if out["xs"]:
@@ -520,6 +529,8 @@ def shrink(case):
 
 RULE = ("timed call histories of 1..30 calls (thorough: ..60) of sub/unsub/next/error/completed/dispose over 1..5 observers with reaction scripts (unsubscribe / subscribe / dispose / "
         "re-entrant on_next, on_error, on_completed into the same subject from inside a callback), "
+        "in about a third of the cases with subscribers that pass subscribe() a scheduler of their own (the subject's one, ImmediateScheduler, or another never-started "
+        "virtual-time scheduler whose clock is at 0 or far ahead), "
         "scheduled on a TestScheduler (3/4 of the cases; arbitrary, also unsorted and equal, virtual times; bursts of >100 same-instant actions that trigger the "
         "scheduler's spin counter) or made directly on ReplaySubject() with its default CurrentThreadScheduler trampoline and a controlled clock (1/4 of the cases), "
         "against ReplaySubject(buffer_size in {None,0..4}, window in {None, shorter / longer than the history, exactly the "
@@ -530,7 +541,9 @@ ASSUMPTIONS = ["single-threaded execution on a virtual-time scheduler (what the 
                "virtual-time cases: every history call is scheduled up front with schedule_absolute and start() is called once; "
                "default-scheduler cases: calls made at top level, Scheduler.now replaced by a controlled monotone clock, every observer has on_error",
                "user conventions as in C20 (one subscription per observer id, reaction actions individually wrapped in try/except); "
-               "callbacks MAY emit into the subject re-entrantly (feedback loops are generated, modelled and judged by the oracle)"]
+               "callbacks MAY emit into the subject re-entrantly (feedback loops are generated, modelled and judged by the oracle)",
+               "the scheduler= argument of a subscriber's subscribe() call is not a parameter of the model or of the oracle: retained values are "
+               "determined by the SUBJECT's scheduler clock and deliveries happen on the SUBJECT's scheduler, whatever a subscriber passes"]
 TRUSTED_EXTRA = ["the model of VirtualTimeScheduler.start / PriorityQueue inside RxModel/SubjReplay.lean (stable (due, insertion) order, clock, "
                  "spin counter) is tied to the code by this correspondence only; C28/C29 own the scheduler's theorems"]
 LEVEL_TEXT = ("Lean theorems over a model of ReplaySubject + per-subscriber ScheduledObserver/AutoDetachObserver + the virtual-time scheduler's queue: "
